@@ -1619,6 +1619,7 @@ func main() {
 	wg.Wait()
 
 	writeCases(a.Out, hs)
+	rep.Histogram["filter_adapter_table_rows"] = writeAdapterTable(a.Out)
 	nontrivial := c.Signatures{}
 	all := c.Signatures{}
 	for _, h := range hs {
